@@ -28,6 +28,8 @@ func runC09(s *sess) map[string]any {
 	rounds := s.rounds(2500)
 	done := 0
 	t0 := time.Date(2024, 1, 1, 0, 0, 0, 0, time.UTC)
+	watchClock, stopNudger := nudger()
+	defer stopNudger()
 	for round := 0; round < rounds && s.more(); round++ {
 		var g group
 		variant := round + s.seed
@@ -44,6 +46,7 @@ func runC09(s *sess) map[string]any {
 			break
 		}
 		clk := clocktesting.NewFakeClock(t0)
+		watchClock(clk)
 		rl.(ratelimiting.RateLimiterWithTicker).WithTicker(clk)
 
 		ctx, cancel := context.WithCancel(context.Background())
